@@ -10,6 +10,14 @@ PLAN = {
  "C12-single-member-gzdecoder": ["C12", "C18"], "C13-normalize-skip-le1": ["C13", "C14"], "C14-theta-take-dropped": ["C14", "C06"],
  "C15-be-u2-as-i16": ["C15"], "C16-npy-short-tail-dropped": ["C16"], "C17-factorial-table-oob": ["C17", "C03", "C06"],
  "C18-skip-prefix-when-3-bytes": ["C18"], "C19-axisiter-index-after-none": ["C19"],
+ # round 2 (agents were told which changes were already known)
+ "C01b-unselected-multiallelic-flag": ["C01", "C08"], "C02b-lazy-denominator": ["C02", "C03"], "C03b-binomial-u64-saturate": ["C03", "C02"],
+ "C04b-swap-remove-shape": ["C04", "C19"], "C05b-single-entry-guard": ["C05"], "C06b-lngamma-x": ["C06", "C03"],
+ "C07b-no-truncate-output": ["C07"], "C08b-break-after-skip": ["C08", "C10"], "C09b-samples-file-whitespace": ["C09"],
+ "C10b-summary-gt-1": ["C10", "C01"],
+ "C11b-tobuf-rewind-axis0": ["C11", "C03"], "C12b-single-read-prefix": ["C12", "C18"], "C13b-mask-slice-pattern": ["C13", "C17"],
+ "C14b-normalize-sum-le-1": ["C14", "C13"], "C15b-pad-boundary-no-newline": ["C15"], "C16b-text-read-line": ["C16"],
+ "C17b-segsites-slice": ["C17", "C06"], "C18b-bufwriter-no-flush": ["C18", "C15"], "C19b-view-iter-guard": ["C19", "C04"],
 }
 seeds = sys.argv[1:] or sorted(PLAN)
 for seed in seeds:
